@@ -47,6 +47,13 @@ fn gen_coef(n: &Uint, seed: u64, i: u64, kind: &str) -> Option<Uint> {
                 Uint::ZERO
             }
         }
+        "t" => {
+            if h % 2048 == 0 {
+                big()
+            } else {
+                Uint::ZERO
+            }
+        }
         _ => return None,
     })
 }
@@ -79,16 +86,26 @@ fn show_poly(zn: &ZmodN, v: &[MInt]) -> String {
     v.iter().map(|&m| zn.to_int(m).to_string()).collect::<Vec<_>>().join(",")
 }
 
-/// optional trailing index list: print only these entries
-fn show_sel(zn: &ZmodN, v: &[MInt], idx: Option<&&str>) -> Option<String> {
-    match idx {
-        None => Some(show_poly(zn, v)),
+/// optional trailing arguments: an index list (print only these entries) and an evaluation point `x`
+/// (append ` chk=<Σ v[i]·x^i mod n>`, a checksum over EVERY entry, computed with ZmodN)
+fn show_sel(zn: &ZmodN, v: &[MInt], rest: &[&str]) -> Option<String> {
+    let mut out = match rest.first() {
+        None => show_poly(zn, v),
         Some(s) => {
             let ix: Vec<usize> = list_of(s)?;
             let sel: Vec<MInt> = ix.iter().map(|&i| v[i]).collect();
-            Some(show_poly(zn, &sel))
+            show_poly(zn, &sel)
         }
+    };
+    if let Some(x) = rest.get(1) {
+        let x = zn.from_int(uint_of(x)?);
+        let mut acc = zn.zero();
+        for c in v.iter().rev() {
+            acc = zn.add(zn.mul(acc, x), *c);
+        }
+        out.push_str(&format!(" chk={}", zn.to_int(acc)));
     }
+    Some(out)
 }
 
 fn usize_of(s: &str) -> Option<usize> {
@@ -286,21 +303,21 @@ fn poly_op(op: &str, a: &[&str]) -> Option<String> {
     match (op, a) {
         // pf_convolve n size offset reslen p q [idx]   (pf_kron: same call, the driver answers with
         // the mechanism model instead of the schoolbook specification)
-        ("pf_convolve" | "pf_kron", [n, size, offset, reslen, p, q, rest @ ..]) if rest.len() <= 1 => {
+        ("pf_convolve" | "pf_kron", [n, size, offset, reslen, p, q, rest @ ..]) if rest.len() <= 2 => {
             let zn = ZmodN::new(uint_of(n)?);
             let (p, q) = (poly_of(p, &zn)?, poly_of(q, &zn)?);
             let mut res = vec![MInt::default(); usize_of(reslen)?];
             convolve_modn(&zn, usize_of(size)?, &p, &q, &mut res, usize_of(offset)?);
-            show_sel(&zn, &res, rest.first())
+            show_sel(&zn, &res, rest)
         }
         // pf_convolve_ntt n logk size offset reslen p q [idx]
-        ("pf_convolve_ntt", [n, logk, size, offset, reslen, p, q, rest @ ..]) if rest.len() <= 1 => {
+        ("pf_convolve_ntt", [n, logk, size, offset, reslen, p, q, rest @ ..]) if rest.len() <= 2 => {
             let zn = ZmodN::new(uint_of(n)?);
             let mzp = MultiZmodP::new(&zn, u32_of(logk)?);
             let (p, q) = (poly_of(p, &zn)?, poly_of(q, &zn)?);
             let mut res = vec![MInt::default(); usize_of(reslen)?];
             convolve_modn_ntt(&mzp, usize_of(size)?, &p, &q, &mut res, usize_of(offset)?);
-            show_sel(&zn, &res, rest.first())
+            show_sel(&zn, &res, rest)
         }
         ("pf_from_roots", [n, ringsize, roots]) => {
             let zn = ZmodN::new(uint_of(n)?);
